@@ -1,14 +1,4 @@
-//@ include prelude/head.rs
-use std::str::from_utf8;
-//@ include prelude/std_extra.rs
-//@ include prelude/error_types.rs
-//@ include prelude/crypto.rs
-//@ include spec/uri.rs
-//@ include spec/headers.rs
-//@ include spec/path.rs
-//@ include prelude/hex.rs
-//@ include prelude/outline.rs
-//@ include prelude/regex.rs
+//@ include prelude/common.rs
 //@ include contracts/elements.rs as callee
 //@ include contracts/path.rs
 //@ include prelude/tail.rs
